@@ -16,7 +16,10 @@ T == <<
   [ref |-> 1,  pos |-> 70000, name |-> Name(2), mapq |-> 7, flag |-> 147, cigar |-> <<<<5, 2>>, <<7, 4>>, <<8, 1>>, <<6, 1>>>>, seq |-> <<1, 1, 1, 1, 1>>, qual |-> <<10, 10, 10, 10, 10>>, tags |-> <<>>],
   [ref |-> 0,  pos |-> 5,   name |-> Name(1), mapq |-> 1,  flag |-> 16, cigar |-> <<<<0, 300>>>>,                       seq |-> <<4, 8>>,          qual |-> <<0, 10>>,     tags |-> <<88, 88, 65, 10>>],
   [ref |-> 1,  pos |-> 9,   name |-> Name(254), mapq |-> 3, flag |-> 0,  cigar |-> <<<<0, 2>>>>,                        seq |-> <<1, 2>>,          qual |-> <<20, 21>>,    tags |-> <<>>],
-  [ref |-> 0,  pos |-> 11,  name |-> Name(220), mapq |-> 4, flag |-> 16, cigar |-> <<<<4, 1>>, <<0, 1>>>>,              seq |-> <<8, 4, 2>>,       qual |-> <<1, 1, 1>>,   tags |-> <<>>]
+  [ref |-> 0,  pos |-> 11,  name |-> Name(220), mapq |-> 4, flag |-> 16, cigar |-> <<<<4, 1>>, <<0, 1>>>>,              seq |-> <<8, 4, 2>>,       qual |-> <<1, 1, 1>>,   tags |-> <<>>],
+  \* a skip of more than 2^27 reference bases (the top bit of the 28-bit length field) and the largest length 2^28 - 1
+  [ref |-> 0,  pos |-> 100, name |-> Name(2), mapq |-> 9,  flag |-> 0,  cigar |-> <<<<0, 2>>, <<3, 134217733>>, <<0, 1>>>>, seq |-> <<1, 2, 4>>,     qual |-> <<5, 6, 7>>,   tags |-> <<>>],
+  [ref |-> 1,  pos |-> 3,   name |-> Name(1), mapq |-> 2,  flag |-> 16, cigar |-> <<<<2, 268435455>>, <<0, 1>>>>,       seq |-> <<8>>,             qual |-> <<40>>,        tags |-> <<>>]
 >>
 Init == recs = <<>>
 Add == Len(recs) < MaxRecs /\ \E i \in Pick : recs' = Append(recs, T[i])
